@@ -36,7 +36,7 @@ def main():
         return R.finish()
     cdir, harness, model = st
     cases = []  # (line, expected or None, bytes, class)
-    n = 40000 if thorough else 8000
+    n = 200000 if thorough else 8000
     for fam in ('uri', 'iri'):
         g = Gen(random.Random(rnd.random()), fam)
         for i in range(n // 2):
@@ -64,7 +64,7 @@ def main():
                         cases.append(('auth\t%s\t%s' % (fam, hexs(Gen.acompose(a))), expected(a), Gen.acompose(a).encode(), (fam, 'exhaustive', u, h, p)))
     dfas = json.load(open(os.path.join(cdir, 'dfa.json')))
     for t, fam in (('uri_authority', 'uri'), ('iri_authority', 'iri')):
-        for b in c01.sample_strings(dfas[t], random.Random(rnd.random()), 6000 if thorough else 1500):
+        for b in c01.sample_strings(dfas[t], random.Random(rnd.random()), 30000 if thorough else 1500):
             tk = c01.tokens_of(dfas[t], b)
             if tk is not None and c01.dfa_run(dfas[t], tk):
                 cases.append(('auth\t%s\t%s' % (fam, hexs(b)), None, b, (fam, 'walk', b'@' in b, b'[' in b, b':' in b)))
